@@ -298,3 +298,42 @@ Example C19_build_raw_example :
         (leaves (VLeaf (mkLval 0 true (mkPort ((0, 0), []) false [7] [] false Di []) (mkPin 1 Dio 0 ((0, 0), [])) None)))
   = [DRaw 1; DRes (mkIO (((0, 0), []), 0) [7] []); DRaw 2; DRaw 1].
 Proof. reflexivity. Qed.
+
+(* ------------------------------------------------------------------ translated from the source on every run
+   (translator/unit_res.py -> Gen/ResGen.v; equalities proved in Proofs/GenEqRes.v).  Pins.map_names,
+   ResourceManager.lookup, the `for phys_name in phys_names` claim loop of request.resolve and the body of
+   ResourceManager.request (its nested merge_options/resolve instantiated with the model's) as regenerated from the
+   current text of amaranth/build/{dsl,res}.py equal the model, for every fuel, table, connector table, state, request. *)
+From V.Gen Require ResGen.
+From V.Proofs Require GenEqRes.
+Theorem C19_translated_map_names fuel ns cm :
+  ResGen.Pins_map_names fuel ns cm = GenEqRes.of_lres (map_names fuel cm ns).
+Proof. exact (GenEqRes.gen_map_names_eq fuel ns cm). Qed.
+Print Assumptions C19_translated_map_names.
+Theorem C19_translated_lookup t name number :
+  ResGen.ResourceManager_lookup t name number =
+  match tbl_lookup t (name, number) with Some n => ResGen.Ret (number, n) | None => ResGen.Raise GenEqRes.E_nosuch end.
+Proof. exact (GenEqRes.gen_lookup_eq t name number). Qed.
+Print Assumptions C19_translated_lookup.
+Theorem C19_translated_claim st pth names :
+  ResGen.resolve_claim st pth names =
+  let (ph, ok) := claim (phys_reqd st) names pth in
+  (mkSt (requested st) ph (io_clocks st) (pins st), if ok then ResGen.Ret tt else ResGen.Raise GenEqRes.E_conflict).
+Proof. exact (GenEqRes.gen_claim_eq st pth names). Qed.
+Print Assumptions C19_translated_claim.
+(* when the model reports EHang (fuel exhausted; unreachable, resolve_terminates) the generated request does not return *)
+Theorem C19_translated_request t cm st q :
+  let g := ResGen.ResourceManager_request GenEqRes.model_merge (GenEqRes.model_resolve cm) t st
+             (q_name q) (q_num q) (q_dir q) (q_xdr q) in
+  match request t cm st q with
+  | (st', Ok v) => g = (st', ResGen.Ret v)
+  | (st', Error EHang) => snd g = ResGen.Hang
+  | (st', Error e) => g = (st', ResGen.Raise (GenEqRes.exc_of e))
+  end.
+Proof. exact (GenEqRes.gen_request_eq t cm st q). Qed.
+Print Assumptions C19_translated_request.
+Theorem C19_translated_iter st :
+  ResGen.ResourceManager_iter_pins st = pins st /\
+  ResGen.ResourceManager_iter_port_clock_constraints st = clock_constraints st.
+Proof. exact (conj (GenEqRes.gen_iter_pins_eq st) (GenEqRes.gen_iter_port_clock_constraints_eq st)). Qed.
+Print Assumptions C19_translated_iter.
